@@ -118,7 +118,8 @@ def _work(a):
             cache["b"] = cc.unit_for(t, on, "B")
         return cache["b"]
     mx = codec.max_bytes(t)
-    sizes = sorted({0, 1, max(mx - 1, 0), mx, mx + 2}) if _TIER[0] == "quick" else list(range(0, mx + 3))
+    # (255-element serialization-only types: every tier uses the five representative sizes, 261 sizes x 30 s per option set is outside any budget)
+    sizes = sorted({0, 1, max(mx - 1, 0), mx, mx + 2}) if (_TIER[0] == "quick" or cc.ser_only(t)) else list(range(0, mx + 3))
     for bs in sizes:
         t0 = time.time()
         lg = _with_fallback(tu, tub, lambda u, check_ub, bs=bs: codec.ser_queries(u, bs, check_ub=check_ub, functional=False))
